@@ -111,7 +111,7 @@ def parse_config_file(path: str, kwargs: dict):
         options from command line arguments
     """
     config = configparser.ConfigParser(interpolation=None)
-    config.read(path)
+    config.read(path, encoding="utf-8")
 
     for key, val in config["config"].items():
         if key.lower() in ["announce", "http-seed", "web-seed", "tracker"]:
